@@ -257,6 +257,8 @@ class Engine:
         r = z3.Const(fresh_name(hint), self.S.Ref)
         st.assume(r != self.S.null)
         st.assume(z3.Not(z3.Select(st.alloc, r)))
+        if st.old is not None and st.old.alloc is not None and not st.old.alloc.eq(st.alloc):
+            st.assume(z3.Not(z3.Select(st.old.alloc, r)))      # allocation only grows
         st.alloc = z3.Store(st.alloc, r, True)
         st.assume(self.dtype_fn(r) == self.class_id(cls))
         self.classvar_facts(st, cls)
